@@ -58,7 +58,9 @@
 (* announcement); frames are sent BY IDENTITY over whatever connection is  *)
 (* registered; nobody tells the endpoints of a tunnel that a hop was lost: *)
 (* ingress stream records live until the application closes, exit records  *)
-(* until the next failed write / idle timeout.                             *)
+(* until the next failed write / idle timeout.  Such a left-over record is *)
+(* DEAD in the design described here: data is handed to an endpoint record *)
+(* only when it arrives over the connection the record was created on.     *)
 (*                                                                         *)
 (* Deviations (Dev): DevRouteKeptAfterDisconnect, DevRelayKeptAfterDisconnect,*)
 (* DevTunnelOverUnregistered (frames of a dead connection are still        *)
@@ -66,7 +68,11 @@
 (* skipped when a newer connection of the same identity is registered -    *)
 (* the pinned code, see PeerReg.tla / peer.Manager.handleDisconnect),      *)
 (* DevSleepKeepsConnections, DevRelayDuplicatesData,                       *)
-(* DevNoForwardToReconnected (flooding uses the peer set of start-up).     *)
+(* DevNoForwardToReconnected (flooding uses the peer set of start-up),     *)
+(* DevEndpointSurvivesReconnect (an ingress / exit record whose connection *)
+(* is gone still takes data that arrives over the NEXT connection of the   *)
+(* same peer - the pinned code finds the record by the bare stream id; a   *)
+(* one-hop tunnel goes on after a reconnect, without what was in flight).  *)
 (***************************************************************************)
 EXTENDS Integers, Sequences, FiniteSets, TLC, Json
 
@@ -88,7 +94,7 @@ CONSTANTS Agent,        \* agent names
 
 DevNames == {"DevRouteKeptAfterDisconnect", "DevRelayKeptAfterDisconnect", "DevTunnelOverUnregistered",
              "DevSkipCleanupWhenSuperseded", "DevSleepKeepsConnections", "DevRelayDuplicatesData",
-             "DevNoForwardToReconnected"}
+             "DevNoForwardToReconnected", "DevEndpointSurvivesReconnect"}
 ASSUME Dev \subseteq DevNames
 
 Pairs == {p \in SUBSET Agent : Cardinality(p) = 2}
@@ -181,14 +187,17 @@ Connect(l) ==
   /\ clean' = [a \in Agent |-> FALSE]
   /\ UNCHANGED <<topo, awake, wann, gone, ctr, seen, tbl, q, tunVars, bud>>
 
-EmptyLink(qq, l) == [d \in Dirs |-> IF {d[1], d[2]} = l THEN <<>> ELSE qq[d]]
 KeepStale == "DevTunnelOverUnregistered" \in Dev
+\* frames in flight on a dead connection are lost (the deviation keeps the tunnel frames: they are processed later
+\* although their connection is no longer the registered one)
+Lost(s) == IF KeepStale THEN SelectSeq(s, LAMBDA m : m.k # "adv") ELSE <<>>
+EmptyLink(qq, l) == [d \in Dirs |-> IF {d[1], d[2]} = l THEN Lost(qq[d]) ELSE qq[d]]
 
 LinkFail(l) ==
   /\ l \in topo.links /\ live[l] > 0 /\ bud.fail < MaxFail
   /\ live' = [live EXCEPT ![l] = 0]
   /\ gone' = gone \cup {x \in {<<a, b, live[l]>> : a \in l, b \in l} : x[1] # x[2] /\ reg[x[1]][x[2]] = live[l]}
-  /\ q' = IF KeepStale THEN q ELSE EmptyLink(q, l)
+  /\ q' = EmptyLink(q, l)
   /\ clean' = [a \in Agent |-> FALSE]
   /\ bud' = [bud EXCEPT !.fail = @ + 1]
   /\ last' = [act |-> "LinkFail", l |-> l, g |-> live[l]]
@@ -346,6 +355,8 @@ DeliverAckErr(s, d, m, rest) ==
           /\ last' = [act |-> "Deliver", k |-> m.k, s |-> s, d |-> d, res |-> "drop"]
   /\ UNCHANGED <<connVars, floodVars, exr, sentN, rcvX, echoN, rcvI, bud>>
 
+\* an endpoint record takes data only from the connection it was created on
+EndpointLive(r, m) == r.g = m.g \/ "DevEndpointSurvivesReconnect" \in Dev
 Twice(qq, a, b, m) == IF "DevRelayDuplicatesData" \in Dev THEN Put(Put(qq, a, b, m), a, b, m) ELSE Put(qq, a, b, m)
 
 DeliverData(s, d, m, rest) ==
@@ -357,11 +368,11 @@ DeliverData(s, d, m, rest) ==
      THEN /\ q' = Put(rest, d, (CHOOSE e \in DnEntry(d, s, m.t) : TRUE).up, m)
           /\ UNCHANGED <<rcvX, rcvI>>
           /\ last' = [act |-> "Deliver", k |-> "data", s |-> s, d |-> d, res |-> "relay-up"]
-     ELSE IF m.dir = "f" /\ \E r \in exr[d] : r.t = m.t
+     ELSE IF m.dir = "f" /\ \E r \in exr[d] : r.t = m.t /\ EndpointLive(r, m)
      THEN /\ rcvX' = [rcvX EXCEPT ![m.t] = Append(@, m.n)]
           /\ q' = rest /\ UNCHANGED rcvI
           /\ last' = [act |-> "Deliver", k |-> "data", s |-> s, d |-> d, res |-> "exit"]
-     ELSE IF m.dir = "r" /\ \E r \in ingr[d] : r.t = m.t
+     ELSE IF m.dir = "r" /\ \E r \in ingr[d] : r.t = m.t /\ EndpointLive(r, m)
      THEN /\ rcvI' = [rcvI EXCEPT ![m.t] = Append(@, m.n)]
           /\ q' = rest /\ UNCHANGED rcvX
           /\ last' = [act |-> "Deliver", k |-> "data", s |-> s, d |-> d, res |-> "ingress"]
@@ -474,7 +485,7 @@ Sleep(a) ==
           /\ gone' = gone \cup {<<a, b, reg[a][b]>> : b \in {n \in Agent : reg[a][n] > 0}}
                           \cup {<<b, a, reg[a][b]>> : b \in {n \in Agent : reg[a][n] > 0 /\ reg[n][a] = reg[a][n]}}
           /\ pend' = {x \in pend : x[1] # a}
-          /\ q' = [d \in Dirs |-> IF a \in {d[1], d[2]} /\ ~KeepStale THEN <<>> ELSE q[d]]
+          /\ q' = [d \in Dirs |-> IF a \in {d[1], d[2]} THEN Lost(q[d]) ELSE q[d]]
           /\ clean' = [x \in Agent |-> FALSE]
   /\ UNCHANGED <<topo, gen, ctr, seen, tbl, tunVars>>
 
@@ -526,7 +537,7 @@ TypeOK ==
   /\ \A a \in Agent : \A e \in tbl[a] : e.o # a /\ e.nh # a /\ Len(e.path) >= 1 /\ e.path[1] = e.nh
                                           /\ e.path[Len(e.path)] = e.o /\ a \notin Range(e.path)
   /\ \A a \in Agent : \A e, f \in tbl[a] : Key(e) = Key(f) => e = f
-  /\ \A d \in Dirs : Len(q[d]) <= 12
+QueueBound == \A d \in Dirs : Len(q[d]) <= 12
 
 \* a live transport connection is registered at both ends (Connect is atomic at this grain) unless an end closed it
 LiveRegistered == \A p \in Pairs : live[p] > 0 => \A a \in p, b \in p : a # b => reg[a][b] = live[p]
@@ -583,5 +594,4 @@ S4prefix == \A t \in Tunnels : IsCount(rcvX[t]) /\ Len(rcvX[t]) <= sentN[t] /\ I
 S5sleeping == \A a \in Agent : ~awake[a] => \A b \in Agent : reg[a][b] = 0
 S5noOpen == [][(last'.act = "OpenTunnel" /\ last'.res = "mesh") => last'.awake]_vars
 
-\* every action is taken on the bounded instances (used with -coverage in development)
 =============================================================================
